@@ -700,9 +700,31 @@ func Supervise(c *Check, o Opts) int {
 	if c.Finish != nil {
 		c.Finish(o.Tier, m, cov)
 	}
+	// the schema's counts are non-negative integers: a derived count that went negative is a bookkeeping slip of the
+	// check, reported in the evidence rather than written as such
+	for _, k := range []string{"evaluations", "distinct_nontrivial", "states", "transitions", "traces_validated_against_impl"} {
+		if v, ok := cov[k]; ok {
+			if n, isInt := asInt64(v); isInt && n < 0 {
+				cov[k] = int64(0)
+				cov["bookkeeping_note"] = fmt.Sprintf("%s was computed as %d and is reported as 0", k, n)
+			}
+		}
+	}
 	return Conclude(c.ID, c.Level, o, cov, c.Assumptions, m.Fails, t0, func(f *FailAgg) interface{} {
 		return map[string]interface{}{"case_index": f.First.Case, "case": safeDescribe(e, f.First.Case), "detail": f.First.Detail}
 	})
+}
+
+func asInt64(v interface{}) (int64, bool) {
+	switch x := v.(type) {
+	case int:
+		return int64(x), true
+	case int64:
+		return x, true
+	case int32:
+		return int64(x), true
+	}
+	return 0, false
 }
 
 func safeDescribe(e Enumeration, i int64) interface{} {
